@@ -13,7 +13,8 @@ for f in sorted(glob.glob('/verif/seeded/*/meta.json')):
     if not how and m.get('first_violations'):
         v = m['first_violations']
         how = (v[1].strip() if len(v) > 1 and v[1].startswith('  ') else v[0])[:160]
-    verdict = 'quick' if m['caught_by_quick'] else ('thorough' if m.get('caught_by_thorough') else '**missed**')
+    chk = m.get('caught_by_check') or m['property']
+    verdict = (chk + ' quick') if m['caught_by_quick'] else ('thorough' if m.get('caught_by_thorough') else '**missed**')
     rows.append(f"| {name} | {title} | {cb.get('repo_tests_failures')} | {verdict} ({cb.get('violations_reported')} reports) | {how.replace('|','/')} | {(m.get('history') or 'caught by the check as first built').replace('|','/')} |")
 table = ["| seed | change | repo test failures with it | caught by | first report | history |", "|---|---|---|---|---|---|"] + rows
 p = '/verif/DESIGN.md'; s = open(p).read()
